@@ -61,106 +61,128 @@ def find(ck, facts, rule, name_re, what):
 
 
 def escape_rule(ck, facts):
+    """R6.1: the per-character decision of _cnq::nq, *evaluated* (predicate abstraction over the code point: switches, range and
+    comparison tests on the character are followed with eval_pure) for every code point that any test of the function
+    mentions, their neighbours and samples of every Unicode region, and compared with the canonical N-Quads table."""
+    from mirutil import eval_pure
     fn = find(ck, facts, "R6.1", r"^_cnq::nq$", "_cnq::nq")
     if fn is None:
         return
-    sw = [(bi, b["t"]) for bi, b in enumerate(fn.blocks) if b["t"]["t"] == "switch" and b["t"].get("ty") == "char" and not b.get("cleanup")]
-    if len(sw) != 1:
-        ck.bad("R6.1", "R6.1@nq#switch", "expected one match on the character being escaped (found %d)" % len(sw), fn.loc)
+    # the character of the literal loop: a `char` local assigned from the Some payload of Chars::next()
+    starts = []
+    for bi, b in enumerate(fn.blocks):
+        if b.get("cleanup"):
+            continue
+        for si, st in enumerate(b["s"]):
+            if st[0] == "=" and len(st[1]) == 1 and fn.locals[st[1][0]]["ty"] == "char" and st[2][0] == "use" and st[2][1][0] != "k" \
+                    and any(str(p_).startswith("d1:Some") for p_ in st[2][1][1][1:]):
+                starts.append((bi, si, st[1][0]))
+    if len(starts) != 1:
+        ck.bad("R6.1", "R6.1@nq#switch", "expected one loop over the characters of the lexical form (found %d)" % len(starts), fn.loc)
         return
-    bi, t = sw[0]
-    got = {}
-    for v, tb in t["vals"]:
-        b = tb
-        const = None
-        for _ in range(6):
-            tt = fn.blocks[b]["t"]
-            if tt["t"] == "call" and call_name_matches(tt, r"String::push_str$"):
-                const = const_bytes_of(fn, tt["args"][1])
-                break
-            if tt["t"] == "goto":
-                b = tt["to"]
-                continue
-            break
-        got[int(v)] = const
-    for cp, esc in sorted(CANON.items()):
-        if got.get(cp) == esc:
-            ck.ok("R6.1", "U+%04X -> %s" % (cp, esc))
+    sb, ss, cl = starts[0]
+    consts = set()
+    for b in fn.blocks:
+        t = b["t"]
+        if t["t"] == "switch" and t.get("ty") == "char":
+            consts |= {int(v) for v, _ in t["vals"]}
+        for st in b["s"]:
+            if st[0] == "=" and st[2][0] == "bin":
+                for op in st[2][2:4]:
+                    if op[0] == "k" and op[1].get("ty") in ("char", "u32") and op[1].get("kind") == "int":
+                        consts.add(int(op[1]["v"]))
+    sample = set(CANON) | consts | {0, 1, 7, 0x0B, 0x0E, 0x1F, 0x20, 0x21, 0x41, 0x7E, 0x80, 0x85, 0xA0, 0xD7FF, 0xE000, 0xFFFD, 0x10000, 0x1FFFE, 0x10FFFF}
+    sample |= {c + d for c in list(sample) for d in (-1, 1)}
+    sample = sorted(c for c in sample if 0 <= c <= 0x10FFFF and not 0xD800 <= c <= 0xDFFF)
+    bad_esc, extra, hexed, raw_n, hex_blocks = [], [], 0, 0, set()
+    for cp in sample:
+        try:
+            r = eval_pure(fn, sb, ss + 1, {cl: cp}, lambda b_: None)
+        except CheckError as e:
+            ck.bad("R6.1", "R6.1@nq#switch", "the escape decision is not a function of the character alone: %s" % e, fn.loc)
+            return
+        t = fn.blocks[r[1]]["t"] if r[0] == "term" else None
+        if t is None or t["t"] != "call":
+            got = ("?", None)
+        elif call_name_matches(t, r"String::push_str$"):
+            got = ("esc", const_bytes_of(fn, t["args"][1]))
+        elif call_name_matches(t, r"String::push$"):
+            o = fn.origin(t["args"][1]) if len(t["args"]) > 1 else ("?",)
+            got = ("raw", None)
+        elif call_name_matches(t, r"fmt::rt::Argument::<'_>::new_upper_hex$"):
+            got = ("hex-upper", None)
+            hex_blocks.add(r[1])
+        elif call_name_matches(t, r"fmt::rt::Argument::<'_>::new_lower_hex$"):
+            got = ("hex-lower", None)
         else:
-            ck.bad("R6.1", "R6.1@nq#escape:U+%04X" % cp, "U+%04X is written as %r; canonical N-Quads requires %r" % (cp, got.get(cp), esc), fn.loc)
-    extra = sorted(set(got) - set(CANON))
-    if extra:
-        ck.bad("R6.1", "R6.1@nq#extra-escapes", "characters %s are escaped although canonical N-Quads writes them raw" % ["U+%04X" % x for x in extra], fn.loc)
-    # the default arm: c <= 0x1F -> \\uXXXX upper-case, else push(c)
-    other = t["else"]
-    region = fn.reachable(other, avoid={tb for _, tb in t["vals"]})
-    le = None
-    for rb in sorted(region):
-        bs = bool_switch(fn, rb)
-        if bs and bs[0][0] == "rvalue" and bs[0][1][0] == "bin" and bs[0][1][1] in ("Le", "Lt"):
-            c = fn.origin(bs[0][1][3])
-            if c[0] == "const" and c[1].get("kind") == "int":
-                lim = int(c[1]["v"]) + (0 if bs[0][1][1] == "Le" else -1)
-                le = (rb, bs[1], bs[2], lim)
-                break
-    if le is None:
-        ck.bad("R6.1", "R6.1@nq#control-range", "no `c <= U+001F` test for the remaining control characters", fn.loc)
-        return
-    rb, true_t, false_t, lim = le
-    if lim != 0x1F:
-        ck.bad("R6.1", "R6.1@nq#control-range", "the generic \\uXXXX escape applies up to U+%04X, canonical N-Quads says U+001F" % lim, fn.loc)
-    tregion = fn.reachable(true_t, avoid={false_t}) - fn.reachable(false_t, avoid={true_t})
-    tpl_ok = False
-    upper = False
-    for tb, tt, tpl in fmt_templates(fn):
-        if tb in tregion and tpl is not None:
-            # literal "\\u" + one placeholder
-            lits = "".join(x[1] for x in tpl if x[0] == "lit")
-            nargs = sum(1 for x in tpl if x[0] == "arg")
-            raw = provenance(fn, tt["args"][0], transparent=())[-1]
-            v = raw[1].get("v") if raw[0] == "const" else None
-            b = bytes(v) if isinstance(v, list) else (v.encode() if isinstance(v, str) else b"")
-            # placeholder byte with flags+width: zero-pad flag (bit in flags word) and width 4
-            width4 = False
-            i = 0
-            while i < len(b):
-                n = b[i]
-                i += 1
-                if n == 0:
-                    break
-                if n < 128:
-                    i += n
-                elif n >= 0xC0:
-                    flags = int.from_bytes(b[i:i + 4], "little") if n & 1 else 0
-                    i += 4 if n & 1 else 0
-                    width = int.from_bytes(b[i:i + 2], "little") if n & 2 else None
-                    i += 2 if n & 2 else 0
-                    i += 2 if n & 4 else 0
-                    i += 2 if n & 8 else 0
-                    zero = bool(flags & (1 << 24)) or bool(flags & 0x8) or bool(flags & (1 << 3))
-                    if width == 4:
-                        width4 = True
-            if lits == "\\u" and nargs == 1 and width4:
-                tpl_ok = True
-    for rb2 in tregion:
-        tt = fn.blocks[rb2]["t"]
-        if tt["t"] == "call" and call_name_matches(tt, r"fmt::rt::Argument::<'_>::new_upper_hex$"):
-            upper = True
-        if tt["t"] == "call" and call_name_matches(tt, r"fmt::rt::Argument::<'_>::new_lower_hex$"):
-            upper = False
+            got = ("?", t["f"].get("name"))
+        want = ("esc", CANON[cp]) if cp in CANON else (("hex-upper", None) if cp <= 0x1F else ("raw", None))
+        if got == want:
+            hexed += got[0] == "hex-upper"
+            raw_n += got[0] == "raw"
+            continue
+        if got[0] == "hex-lower":
             ck.bad("R6.1", "R6.1@nq#lower-hex", "control characters are escaped with lower-case hex digits; canonical N-Quads requires \\uXXXX "
                    "with upper-case hex (the output, and every hash over it, differs from other implementations)", fn.loc)
-    if tpl_ok and upper:
-        ck.ok("R6.1", "other C0 controls -> \\u + 4 upper-case hex digits")
-    elif not any(f.key == "R6.1@nq#lower-hex" for f in ck.findings):
-        ck.bad("R6.1", "R6.1@nq#uXXXX-shape", "the generic escape is not `\\u{:04X}` (template ok=%s, upper-case=%s)" % (tpl_ok, upper), fn.loc)
-    # the false edge pushes the character itself
-    fregion = fn.reachable(false_t, avoid={true_t}) - fn.reachable(true_t, avoid={false_t})
-    raw = [fn.blocks[x]["t"] for x in fregion if fn.blocks[x]["t"]["t"] == "call" and call_name_matches(fn.blocks[x]["t"], r"String::push$")]
-    if raw:
-        ck.ok("R6.1", "every other character is pushed unchanged")
+            return
+        if want[0] == "esc":
+            bad_esc.append((cp, got))
+        elif want[0] == "hex-upper":
+            ck.bad("R6.1", "R6.1@nq#control-range", "U+%04X is written as %s; canonical N-Quads writes the C0 controls without a dedicated escape "
+                   "as \\u + four upper-case hex digits" % (cp, got), fn.loc)
+            return
+        else:
+            extra.append((cp, got))
+    for cp, esc in sorted(CANON.items()):
+        hit = [g for c, g in bad_esc if c == cp]
+        if hit:
+            ck.bad("R6.1", "R6.1@nq#escape:U+%04X" % cp, "U+%04X is written as %r; canonical N-Quads requires %r" % (cp, hit[0][1] if hit[0][0] == "esc" else hit[0][0], esc), fn.loc)
+        else:
+            ck.ok("R6.1", "U+%04X -> %s" % (cp, esc))
+    if extra:
+        if any(g[0] == "hex-upper" and c > 0x1F for c, g in extra):
+            lim = max(c for c, g in extra if g[0] == "hex-upper")
+            ck.bad("R6.1", "R6.1@nq#control-range", "the generic \\uXXXX escape applies up to U+%04X, canonical N-Quads says U+001F" % lim, fn.loc)
+        elif any(g[0] == "esc" for c, g in extra):
+            ck.bad("R6.1", "R6.1@nq#extra-escapes", "characters %s are escaped although canonical N-Quads writes them raw" % ["U+%04X" % c for c, g in extra if g[0] == "esc"][:6], fn.loc)
+        else:
+            ck.bad("R6.1", "R6.1@nq#raw", "characters that need no escape are not pushed unchanged (%s)" % ["U+%04X: %s" % (c, g) for c, g in extra][:3], fn.loc)
     else:
-        ck.bad("R6.1", "R6.1@nq#raw", "characters that need no escape are not pushed unchanged", fn.loc)
+        ck.ok("R6.1", "every other character is pushed unchanged (%d samples)" % raw_n)
+    # the template of the generic escape: literal `\u` + one argument, zero-padded, width 4
+    tpl_ok = False
+    for hb in hex_blocks:
+        region = fn.reachable(hb)
+        for tb, tt, tpl in fmt_templates(fn):
+            if tb in region and tpl is not None:
+                lits = "".join(x[1] for x in tpl if x[0] == "lit")
+                nargs = sum(1 for x in tpl if x[0] == "arg")
+                raw = provenance(fn, tt["args"][0], transparent=())[-1]
+                v = raw[1].get("v") if raw[0] == "const" else None
+                bts = bytes(v) if isinstance(v, list) else (v.encode() if isinstance(v, str) else b"")
+                width4 = False
+                k = 0
+                while k < len(bts):
+                    n = bts[k]
+                    k += 1
+                    if n == 0:
+                        break
+                    if n < 128:
+                        k += n
+                    elif n >= 0xC0:
+                        k += 4 if n & 1 else 0
+                        width = int.from_bytes(bts[k:k + 2], "little") if n & 2 else None
+                        k += 2 if n & 2 else 0
+                        k += 2 if n & 4 else 0
+                        k += 2 if n & 8 else 0
+                        if width == 4:
+                            width4 = True
+                if lits == "\\u" and nargs == 1 and width4:
+                    tpl_ok = True
+    if hexed and tpl_ok:
+        ck.ok("R6.1", "other C0 controls -> \\u + 4 upper-case hex digits (%d samples)" % hexed)
+    elif not any(f.key in ("R6.1@nq#lower-hex", "R6.1@nq#control-range") for f in ck.findings):
+        ck.bad("R6.1", "R6.1@nq#uXXXX-shape", "the generic escape is not `\\u{:04X}` (template ok=%s, samples=%d)" % (tpl_ok, hexed), fn.loc)
 
 
 def safeguards_rule(ck, facts):
@@ -291,6 +313,8 @@ def unsupported_rule(ck, facts):
                 en = comes_from_call(fn, od[1]["args"][0], r"BTreeMap::<K, V, A>::entry$|BTreeMap::<K, V>::entry$", transparent=())
                 if en and any(p.endswith(":b2q") for p in root_local(fn, en[1]["args"][0])[1]):
                     ins.append(bi)
+    builders = {f.id for f in facts.fns.values() if f.crate == "sophia_c14n" and f is not fn and len(f.blocks) <= 12
+                and any(s3[0] == "=" and s3[2][0] == "agg" and s3[2][1].get("vname") == "Unsupported" for b in f.blocks for s3 in b["s"])}
     tests = {"is_blank_node": None, "is_literal": None, "is_triple": None, "is_variable": None}
     for bi in range(len(fn.blocks)):
         bs = bool_switch(fn, bi)
@@ -300,8 +324,32 @@ def unsupported_rule(ck, facts):
                 # the true edge must reach an Unsupported error and not the insertion
                 reach = fn.reachable(bs[1], avoid={bs[2]})
                 unsup = any(s3[0] == "=" and s3[2][0] == "agg" and s3[2][1].get("vname") == "Unsupported" for x in reach for s3 in fn.blocks[x]["s"])
+                # ... or the error is built by a local helper (a closure of relabel_with / a small function of the crate)
+                unsup = unsup or any(fn.blocks[x]["t"]["t"] == "call" and (fn.blocks[x]["t"]["f"].get("res") or fn.blocks[x]["t"]["f"].get("def")) in builders
+                                     for x in reach)
                 if unsup:
                     tests[m.group(1)] = (bi, bs[2])
+    # a literal is refused in subject, predicate and graph-name position (generalised datasets can hold one there)
+    lit_pos = set()
+    for c_ in facts.with_closures(fn):
+        for _, t_ in c_.calls():
+            if call_name_matches(t_, r"Term>?::is_literal$") and t_["args"]:
+                for pv in provenance(c_, t_["args"][0]):
+                    if pv[0] == "call":
+                        m_ = re.search(r"Quad>?::(s|p|g)$", pv[1]["f"].get("name") or "")
+                        if m_:
+                            lit_pos.add(m_.group(1))
+                if c_ is not fn:
+                    # `quad.g().is_some_and(|gn| gn.is_literal())`: the closure's argument is the graph name
+                    for _, t2 in fn.calls():
+                        if call_name_matches(t2, r"Option::<T>::is_some_and$") and any(p_[0] == "call" and re.search(r"Quad>?::g$", p_[1]["f"].get("name") or "")
+                                                                                       for p_ in provenance(fn, t2["args"][0])):
+                            o_ = fn.origin(t2["args"][1]) if len(t2["args"]) > 1 else ("?",)
+                            if o_[0] == "agg" and o_[1].get("def") == c_.id:
+                                lit_pos.add("g")
+    if tests.get("is_literal") is not None and not {"s", "p", "g"} <= lit_pos:
+        ck.bad("R6.3", "R6.3@relabel_with#literal-position:%s" % ",".join(sorted({"s", "p", "g"} - lit_pos)), "relabel_with does not refuse a literal "
+               "in position %s: the output is not N-Quads (and, for a graph name, not in code point order)" % sorted({"s", "p", "g"} - lit_pos), fn.loc)
     miss = [k for k, v in tests.items() if v is None]
     if miss:
         ck.bad("R6.3", "R6.3@relabel_with#missing-test:%s" % ",".join(miss), "relabel_with does not reject %s with Err(Unsupported)" % miss, fn.loc)
@@ -492,6 +540,35 @@ def limits_rule(ck, facts):
             ck.ok("R6.10", "recursion depth bounded by %s%s" % (sorted(bound), " and an absolute bound" if absolute else ""))
 
 
+def consumed_writer_flushed(fn):
+    """(writes found, every construction of the Ok result is dominated by a flush of the writer)"""
+    writes = [bi for bi, t in fn.calls() if call_name_matches(t, r"io::Write>?::write_all$|io::Write>?::write_fmt$|io::Write>?::write$")]
+    flushes = [bi for bi, t in fn.calls() if call_name_matches(t, r"io::Write>?::flush$")]
+    oks = [bi for bi, si, dest, ops in blocks_with_agg(fn, "core::result::Result", "Ok") if dest == [0]]
+    return bool(writes), bool(writes) and bool(oks) and all(any(fn.dominates(f_, o) for f_ in flushes) for o in oks)
+
+
+def flush_rule(ck, facts):
+    """R6.11: normalize_with takes the writer by value, so nobody else can flush it: Ok(()) may only be built after a flush
+    (with a BufWriter an I/O error would otherwise surface in its drop, where it is swallowed)."""
+    import core
+    ck.control("R6.11", "pos_consumed_writer_not_flushed", consumed_writer_flushed(core.fixture_fn("pos_consumed_writer_not_flushed")) == (True, False))
+    ck.control("R6.11", "neg_consumed_writer_flushed", consumed_writer_flushed(core.fixture_fn("neg_consumed_writer_flushed")) != (True, True), expect=False)
+    fn = find(ck, facts, "R6.11", r"^rdfc10::normalize_with$", "normalize_with")
+    if fn is None:
+        return
+    by_value = not fn.locals[fn.argc]["ty"].startswith("&") if fn.argc else False
+    found, ok = consumed_writer_flushed(fn)
+    if not found:
+        ck.bad("R6.11", "R6.11@normalize_with#anchor", "anchor-missing: the writes of the canonical document", fn.loc)
+    elif ok or not by_value:
+        ck.ok("R6.11", "normalize_with: the consumed writer is flushed before Ok(()) is built" if ok else "normalize_with borrows its writer")
+    else:
+        ck.bad("R6.11", "R6.11@normalize_with#writer-not-flushed", "normalize_with consumes its writer and returns Ok(()) without flushing it: with "
+               "BufWriter::new(stdout()) an I/O error only surfaces in the BufWriter's drop, where it is swallowed - success is "
+               "reported although the canonical document did not reach the sink", fn.loc)
+
+
 def related_list_rule(ck, facts):
     """R6.5 (RDFC-1.0 Hash N-Degree Quads step 3.1.2): *every* occurrence of a related blank node is appended to Hn[hash]:
     from the computation of the related hash, the push into the map entry is reached on every path that continues the
@@ -638,6 +715,7 @@ def run(ck, facts, tier):
     safeguards_rule(ck, facts)
     reference_once_controls(ck)
     unsupported_rule(ck, facts)
+    flush_rule(ck, facts)
     limits_rule(ck, facts)
     fns = [f for f in facts.fns.values() if f.crate == "sophia_c14n" and re.search(r"c14n/src/(rdfc10|_cnq|_permutations|hash)\.rs$", f.file)]
     sites = []
